@@ -157,10 +157,13 @@ class Patch:
         om.threading = self.shim
         om.LOCKS = collections.defaultdict(lambda: om.threading.Lock())
         om.THREADS = Table(self.sched)
+        om.print = lambda *a, **k: None      # "Trial failed n times" lines of _retry
 
     def undo(self):
         for k, v in self.saved.items():
             setattr(self.om, k, v)
+        if "print" in self.om.__dict__:
+            del self.om.print
 
 
 LABELLED = {"owner-read": "read-owner", "lock-acquire": "acquire", "owner-write": "set-owner", "body-read": "read",
@@ -441,6 +444,264 @@ def oracle_scenario(sseed):
     return len(ids)
 
 
+def _touching(cls, names):
+    base = cls.__mro__[1]
+    for nm in names:
+        def mk(nm):
+            orig = getattr(base, nm)
+
+            def m(self, *a, **k):
+                h = self.__dict__.get("_hook")
+                if h is not None:
+                    h(nm)
+                return orig(self, *a, **k)
+            return m
+        setattr(cls, nm, mk(nm))
+
+
+class TList(list):
+    """a list whose every access may be a scheduling point (see lin_scenario)"""
+
+
+class TDict(dict):
+    """a dict whose every access may be a scheduling point"""
+
+
+_touching(TList, ["append", "pop", "insert", "remove", "extend", "index", "__getitem__", "__setitem__", "__iter__", "__len__", "__contains__"])
+_touching(TDict, ["__getitem__", "__setitem__", "__contains__", "__iter__", "__len__", "items", "values", "keys", "get", "pop"])
+
+LIN_KINDS = ("grid", "hyperband", "random", "grid", "hyperband")
+
+
+def _lin_oracle(kind, d, oseed):
+    from harness import gen
+    specs = gen.rand_specs(random.Random(oseed), finite=(kind == "grid"), maxdepth=1, top=(1, 2))
+    over = dict(max_retries_per_trial=1, max_consecutive_failed_trials=3, seed=oseed % 1000)
+    if kind == "hyperband":
+        # small brackets, so that promotions (which read the status and score of other threads' trials) come early
+        over.update(max_epochs=3 if oseed % 2 else 4, factor=3 if oseed % 2 else 2, iterations=1)
+    else:
+        over.update(max_trials=8)
+    return gen.make_oracle(random.Random(oseed), kind, specs, d, **over)
+
+
+class LinProg:
+    """thread t's calls, one per step(): create / report / end (with a worker's copy, with a copy that declares a new entry,
+    or in the legacy form end_trial(trial_id, status))"""
+
+    def __init__(self, o, t, plan, results):
+        self.o, self.t, self.plan, self.results = o, t, plan, results
+        self.i, self.phase, self.tr = 0, "create", None
+
+    @property
+    def done(self):
+        return self.i >= len(self.plan)
+
+    def step(self):
+        from keras_tuner.engine import trial as trial_module
+        from harness.common import canon_vals
+        o, oc = self.o, self.plan[self.i]
+        if self.phase == "create":
+            tr = o.create_trial(f"w{self.t}")
+            self.results.append(["create", tr.trial_id, tr.status, canon_vals(tr.hyperparameters.values) if tr.status == "RUNNING" else ""])
+            if tr.status != "RUNNING":
+                self.i += 1
+                return
+            self.tr = tr
+            self.phase = "update" if oc["status"] == "COMPLETED" else "end"
+            return
+        tid = self.tr.trial_id
+        if self.phase == "update":
+            o.update_trial(tid, {"score": oc["score"]}, step=0)
+            self.results.append(["update", tid])
+            self.phase = "end"
+            return
+        try:
+            if oc["form"] == "legacy":
+                o.end_trial(tid, oc["status"])
+            elif oc["form"] == "legacy-kw":
+                o.end_trial(trial_id=tid, status=oc["status"])
+            else:
+                c = trial_module.Trial(hyperparameters=self.tr.hyperparameters.copy(), trial_id=tid, status=oc["status"])
+                if oc["form"] == "declare":
+                    c.hyperparameters.Int("late", 0, 1, default=0)
+                o.end_trial(c)
+            st = dict.get(o.trials, tid)
+            self.results.append(["end", tid, st.status, "-" if st.score is None else repr(float(st.score))])
+            self.i += 1
+            self.phase = "create"
+        except RuntimeError:
+            self.results.append(["abort", tid])
+            self.i = len(self.plan)
+        except Exception as e:      # e.g. a comparison with a score that is not there yet
+            self.results.append(["error", tid, type(e).__name__])
+            self.i = len(self.plan)
+
+
+def _lin_state(o):
+    from harness.common import canon_vals
+    trials = []
+    for tid in sorted(dict.keys(o.trials)):
+        tr = dict.get(o.trials, tid)
+        trials.append([tid, tr.status, "-" if tr.score is None else repr(float(tr.score)), canon_vals(tr.hyperparameters.values)])
+    st = {"trials": trials, "start": [x for x in list.__iter__(o.start_order)], "end": [x for x in list.__iter__(o.end_order)],
+          "ongoing": sorted((k, v.trial_id) for k, v in dict.items(o.ongoing_trials)),
+          "space": sorted(hp.name for hp in o.hyperparameters.space)}
+    if hasattr(o, "_populate_next"):
+        st["grid_queue"] = [x for x in list.__iter__(o._populate_next)]
+        st["grid_order"] = o._ordered_ids.to_list()
+    if hasattr(o, "_brackets"):
+        st["brackets"] = json.dumps([x for x in list.__iter__(o._brackets)], sort_keys=True)
+    return st
+
+
+def _lin_sequential(kind, oseed, plans, order):
+    """the same programs, one whole call at a time in the given order of threads: (threads not yet done, results, state);
+    None when the order asks a thread for a call it does not make"""
+    with tempdir("ktz") as d:
+        o = _lin_oracle(kind, d, oseed)
+        results = {t: [] for t in plans}
+        progs = {t: LinProg(o, t, plans[t], results[t]) for t in plans}
+        for t in order:
+            if progs[t].done:
+                return None
+            progs[t].step()
+        return [t for t in sorted(plans) if not progs[t].done], results, _lin_state(o)
+
+
+def lin_scenario(sseed):
+    """C17 on the real oracles, statement evaluated literally: the calls of 2-3 threads on one grid / Hyperband / random
+    oracle, under a schedule that may preempt a thread at every lock operation AND at every access to the oracle's shared
+    containers made outside the critical section; the results of all calls and the final state must be those of SOME
+    sequential order of the calls (first candidate: the order in which the calls took the lock; then all orders)."""
+    R = random.Random(sseed)
+    kind = LIN_KINDS[sseed % len(LIN_KINDS)]
+    oseed = R.randrange(1 << 20)
+    n = 2 if R.random() < 0.7 else 3
+    plans = {}
+    for t in range(n):
+        plans[t] = []
+        for _ in range((R.randint(2, 3) if kind == "hyperband" else R.randint(1, 2)) if n == 2 else 1):
+            status = R.choice(["COMPLETED"] * 6 + ["INVALID", "FAILED"])
+            plans[t].append(dict(status=status, score=float(R.randint(0, 5)), form=R.choice(["copy", "declare", "declare", "legacy", "legacy-kw", "copy"])))
+    p = Patch()
+    sched, om = p.sched, p.om
+    hist = collections.Counter()
+    try:
+        with tempdir("kty") as d:
+            o = _lin_oracle(kind, d, oseed)
+            armed = [True]
+            unprotected = []
+
+            def hook_for(label):
+                def hook(nm):
+                    tid = sched.me()
+                    if tid is None or not armed[0]:
+                        return
+                    if dict.get(om.THREADS, o) == f"T{tid}":
+                        return              # inside the critical section: nobody else can be
+                    unprotected.append((tid, label, nm))
+                    sched.point("touch")
+                return hook
+            for attr, cls in (("trials", TDict), ("ongoing_trials", TDict), ("start_order", TList), ("end_order", TList), ("_populate_next", TList),
+                              ("_retry_queue", TList), ("_brackets", TList)):
+                if hasattr(o, attr):
+                    v = cls(getattr(o, attr))
+                    v._hook = hook_for(attr)
+                    setattr(o, attr, v)
+            results = {t: [] for t in plans}
+            progs = {}
+            acq = []
+            real_acquire = SLock.acquire
+
+            def acquire(self, *a, **k):
+                r = real_acquire(self, *a, **k)
+                if self.label == "lock" and sched.me() is not None:
+                    acq.append(sched.me())
+                return r
+            SLock.acquire = acquire
+
+            def worker(t):
+                def run():
+                    prog = progs[t] = LinProg(o, t, plans[t], results[t])
+                    while not prog.done:
+                        sched.point("call")
+                        prog.step()
+                return run
+            try:
+                for t in range(n):
+                    sched.spawn(t, worker(t))
+
+                def run_call(u):
+                    first = True
+                    for _ in range(5000):
+                        if u in sched.finished:
+                            return
+                        label, lock = sched.waiting[u]
+                        if label == "call" and not first:
+                            return
+                        if label.endswith("-acquire") and lock.owner is not None:
+                            return
+                        first = False
+                        sched.grant(u)
+                steps = stuck = 0
+                while len(sched.finished) < n and steps < 20000:
+                    steps += 1
+                    alive = [t for t in range(n) if t not in sched.finished]
+                    t = R.choice(alive)
+                    label, lock = sched.waiting[t]
+                    if label.endswith("-acquire") and lock.owner is not None:
+                        stuck += 1
+                        if stuck > 2000:
+                            raise Violation("C17", f"{kind} oracle, calls from {n} threads: no thread can make progress", {"tag": "wedge"})
+                        continue
+                    stuck = 0
+                    if label == "touch" or (label in ("lock-acquire", "owner-read") and R.random() < 0.3):
+                        # the adversary: before this thread goes on, another one runs a whole call - a request for a trial if there is one
+                        others = [u for u in alive if u != t]
+                        asking = [u for u in others if u in progs and progs[u].phase == "create" and sched.waiting[u][0] == "call"]
+                        if others and R.random() < 0.85:
+                            run_call(R.choice(asking if asking and R.random() < 0.7 else others))
+                            hist["preempted-" + ("outside-lock" if label == "touch" else "before-lock")] += 1
+                    sched.grant(t)
+            finally:
+                SLock.acquire = real_acquire
+                armed[0] = False
+            for t, e in sched.errors.items():
+                raise Violation("C17", f"{kind} oracle thread {t} died with {type(e).__name__}: {str(e)[:100]}", {"tag": "thread-error"})
+            got = (results, _lin_state(o))
+        # the calls in the order in which they took the lock
+        ncalls = sum(len(results[t]) for t in plans)
+        seq = _lin_sequential(kind, oseed, plans, list(acq))
+        if seq is not None and not seq[0] and (seq[1], seq[2]) == got:
+            hist["linearized-in-lock-order"] += 1
+            return ncalls, hist
+        # every sequential order of the calls (a thread's later calls depend on the answers to its earlier ones)
+        tried = 0
+        stack = [[]]
+        while stack and tried < 4000:
+            prefix = stack.pop()
+            seq = _lin_sequential(kind, oseed, plans, prefix)
+            if seq is None:
+                continue
+            if not seq[0]:
+                tried += 1
+                if (seq[1], seq[2]) == got:
+                    hist["linearized-in-another-order"] += 1
+                    return ncalls, hist
+                continue
+            # prune: a thread's answers so far must be a prefix of what it really got
+            if any(seq[1][t] != results[t][:len(seq[1][t])] for t in plans):
+                continue
+            for t in seq[0]:
+                stack.append(prefix + [t])
+        where = sorted(set(f"{lab}.{nm}" for _, lab, nm in unprotected))
+        raise Violation("C17", f"{kind} oracle, {n} threads, plans {plans}: results {results} and final state are not those of any of the {tried} sequential orders of "
+                        f"the calls" + (f"; shared state touched outside the critical section: {where}" if where else ""), {"tag": "not-linearizable", "kind": kind})
+    finally:
+        p.undo()
+
+
 def run(seed, tier, n=None):
     res = Result("sync")
     res.rule = ("2-4 real threads, 1-3 synchronized read-modify-write calls each (20% raise), optional re-entrant nested call, random "
@@ -450,6 +711,7 @@ def run(seed, tier, n=None):
     n = n or (200 if tier == "quick" else 4000)
     R = random.Random(seed ^ 0xC17)
     lines, tails, docs = [], [], []
+    lin_failed = 0          # a failing linearizability scenario enumerates every sequential order (seconds): three reports are enough
     for fn in (independence_scenario, independence_scenario3):
         try:
             fn()
@@ -460,6 +722,14 @@ def run(seed, tier, n=None):
         sseed = R.randrange(1 << 30)
         res.scenarios += 1
         try:
+            if i % 5 in (1, 2):
+                if lin_failed < 3:
+                    k, h = lin_scenario(sseed)
+                    res.hist.update(h)
+                    res.hist["oracle-linearizability"] += 1
+                    res.evaluations += k
+                    res.nontrivial.add(hashlib.sha1(f"l{sseed}".encode()).hexdigest())
+                continue
             if i % 5 == 4:
                 k = oracle_scenario(sseed)
                 res.hist["oracle-threads"] += 1
@@ -468,7 +738,8 @@ def run(seed, tier, n=None):
                 continue
             line, tail, doc = scenario(sseed, nested=(i % 3 == 0))
         except Violation as v:
-            res.violations.append({"pid": v.pid, "what": v.what, "sig": v.sig, "replay": {"suite": "sync", "seed": sseed, "nested": (i % 3 == 0), "oracle": (i % 5 == 4)}})
+            lin_failed += (i % 5 in (1, 2))
+            res.violations.append({"pid": v.pid, "what": v.what, "sig": v.sig, "replay": {"suite": "sync", "seed": sseed, "nested": (i % 3 == 0), "oracle": (i % 5 == 4), "lin": (i % 5 in (1, 2))}})
             continue
         lines.append(line)
         tails.append(tail)
@@ -498,6 +769,9 @@ def replay(doc):
         if doc.get("independence"):
             independence_scenario()
             independence_scenario3()
+            return res
+        if doc.get("lin"):
+            lin_scenario(doc["seed"])
             return res
         if doc.get("oracle"):
             oracle_scenario(doc["seed"])
